@@ -88,6 +88,12 @@ def run_case(ns, mon, c):
         x = np.ascontiguousarray(x.transpose(3, 2, 1, 0)).transpose(3, 2, 1, 0)
     elif layout == "strided-view":
         big = np.zeros((N, C, H, 2 * W)); big[..., ::2] = x; x = big[..., ::2]
+    elif 1 in x.shape and c["seed"] % 2 == 0:
+        # unit axes created with newaxis (x = base[..., None]): same values, stride 0 on those axes, still flagged contiguous
+        x = x[tuple(0 if n_ == 1 else slice(None) for n_ in x.shape)][tuple(None if n_ == 1 else slice(None) for n_ in x.shape)]
+        layout = "unit-axes-via-newaxis"
+    x_snapshot = x.copy()
+    in_layout = layout
     if c.get("empty"):
         for name, f in (("im2col", lambda: ct.im2col(x, k, d, s, p)), ("im2col_v2", lambda: ct.im2col_v2(x, k, d, s, p)),
                         ("im2col_fast", lambda: ct.im2col_fast(x, k, d, s, p)), ("extract_windows", lambda: ct.extract_windows(x, k, s, p, d))):
@@ -152,11 +158,17 @@ def run_case(ns, mon, c):
     y_2d = y_unf.transpose(1, 2, 0).reshape(C * kk[0] * kk[1], L * N)
     ref_img = R.fold(y_unf, (H, W), kk, dd, ss, pp)
     imgs = {}
+    if not np.array_equal(x, x_snapshot):
+        viol.append(V("im2col:input-modified", "the image handed to im2col / extract_windows was modified", geometry=geo))
     for name, f in (("col2im", ct.col2im), ("col2im_v2", ct.col2im_v2), ("col2im_fast", ct.col2im_fast)):
         for layout, y in ((False, y_2d), (True, y_unf)):
             counters["col2im_calls"] = counters.get("col2im_calls", 0) + 1
             try:
-                imgs[(name, layout)] = np.array(f(y.copy(), (N, C, H, W), k, d, s, p))
+                yc = np.ascontiguousarray(y).copy()                  # "for all x and y": y is the caller's array and is used again afterwards
+                imgs[(name, layout)] = np.array(f(yc, (N, C, H, W), k, d, s, p))
+                if not np.array_equal(yc, y):
+                    viol.append(V(f"{name}:layout={'unfold' if layout else '2d'}:columns-modified",
+                                  f"{name} changed the column matrix it was given (a second fold / the inner product with it is no longer that of y)", geometry=geo))
             except Exception as e:
                 viol.append(V(f"{name}:raises:argform={form}", f"{name} raised {type(e).__name__}", geometry=geo, error=str(e)[:200]))
         if True:
@@ -214,7 +226,7 @@ def run_case(ns, mon, c):
             seen.add(v["sig"]); vv.append(v)
     nontrivial = L > 1 and max(kk) > 1
     return {"key": json.dumps(geo, sort_keys=True) if nontrivial else None, "viol": vv, "counters": counters,
-            "cover": {"argforms": [form], "input_layouts": [layout], "features": [f for f, b in (("dilated", max(dd) > 1), ("padded", max(pp) > 0), ("strided", max(ss) > 1),
+            "cover": {"argforms": [form], "input_layouts": [in_layout], "features": [f for f, b in (("dilated", max(dd) > 1), ("padded", max(pp) > 0), ("strided", max(ss) > 1),
                                                                       ("nonsquare", kk[0] != kk[1]), ("pad_value!=0", pv != 0), ("stride>kernel", ss[0] > kk[0] or ss[1] > kk[1])) if b]}}
 
 
